@@ -260,9 +260,10 @@ def spell_offset(rng, notation, nominal_ok=True):
         w = rng.randint(1, 60)
         secs = w * 7 * 86400
         parts = "%dW" % w
-    elif unit == 1 and rng.random() < 0.08:
-        # the alternative (date-time like) spelling, positive only; the
-        # seconds may hide in a decimal minute or hour
+    elif unit == 1 and rng.random() < 0.12:
+        # the alternative (date-time like) spelling (the command line takes
+        # its sign off before the duration parser sees it); the seconds may
+        # hide in a decimal minute or hour
         d, hh, mm = rng.randint(0, 28), rng.randrange(24), rng.randrange(60)
         form = rng.choice(("hms", "hm,", "h,", "basic"))
         if form == "hms":
@@ -282,7 +283,9 @@ def spell_offset(rng, notation, nominal_ok=True):
                 d, hh, {0: "0", 15: "25", 30: "5", 45: "75"}[mm])
             secs = 0
         secs += d * 86400 + hh * 3600 + mm * 60
-        return text, (0, 0, secs)
+        if sign < 0:
+            text = "-" + text
+        return text, (0, 0, sign * secs)
     else:
         v = rng.random()
         if nominal_ok and v < 0.25:
